@@ -277,8 +277,46 @@ ALLOC = [
     Rule("alloc.intptr", r'\(\s*intptr_t\s*\)\s*\(', 'sq_addr('),
 ]
 
+SQUIDS_MEMBERS = ['CoherentRhoTerms', 'NonCoherentRhoTerms', 'OtherRhoTerms', 'GammaScalarTerms', 'OtherScalarTerms', 'AnyNumerics', 'is_init', 'adaptive_step', 't_ini', 'nsteps', 'size_rho', 'size_state', 'system', 'step', 'sys', 'h_min', 'h_max', 'abs_error', 'rel_error', 'dstate', 'nx', 'nsun', 'nrhos', 'nscalars', 'state', 'estate', 'last_dstate_ptr', 'last_estate_ptr', 'x', 't', 'h']
+# closed table of statement forms with overloaded SU_vector expressions in SQuIDS.cpp (DESIGN App. E)
+SQUIDS_FORMS = [
+    Rule("form.icomm", r'(dstate\[ei\]\.rho\[i\])\s*=\s*iCommutator\s*\(\s*(estate\[ei\]\.rho\[i\])\s*,\s*HI\s*\(\s*ei\s*,\s*i\s*,\s*t\s*\)\s*\)\s*;',
+         r'{ struct SU_vector tmp_; hook_vec(K_HI,self,ei,i,t,&tmp_); op_assign_icomm(&\1,&\2,&tmp_,0); }'),
+    Rule("form.setall", r'(dstate\[ei\]\.rho\[i\])\.SetAllComponents\s*\(\s*([^)]*)\)\s*;', r'op_setall(&\1,\2);'),
+    Rule("form.acomm", r'(dstate\[ei\]\.rho\[i\])\s*-=\s*ACommutator\s*\(\s*GammaRho\s*\(\s*ei\s*,\s*i\s*,\s*t\s*\)\s*,\s*(estate\[ei\]\.rho\[i\])\s*\)\s*;',
+         r'{ struct SU_vector tmp_; hook_vec(K_GAMMARHO,self,ei,i,t,&tmp_); op_assign_acomm(&\1,&tmp_,&\2,2); }'),
+    Rule("form.pluseq", r'(dstate\[ei\]\.rho\[i\])\s*\+=\s*InteractionsRho\s*\(\s*ei\s*,\s*i\s*,\s*t\s*\)\s*;',
+         r'{ struct SU_vector tmp_; hook_vec(K_INTRHO,self,ei,i,t,&tmp_); op_pluseq(&\1,&tmp_); }'),
+    Rule("form.gammas", r'\bGammaScalar\s*\(\s*ei\s*,\s*is\s*,\s*t\s*\)', 'hook_scalar(K_GAMMAS,self,ei,is,t)'),
+    Rule("form.ints", r'\bInteractionsScalar\s*\(\s*ei\s*,\s*is\s*,\s*t\s*\)', 'hook_scalar(K_INTS,self,ei,is,t)'),
+    Rule("form.prederive", r'\bPreDerive\s*\(\s*(\w+)\s*\)\s*;', r'hook_pre(self,\1);'),
+    Rule("form.setbacking", r'((?:estate|dstate)\[ei\]\.rho\[i\])\.SetBackingStore\s*\(((?:[^()]|\((?:[^()]|\([^()]*\))*\))*)\)\s*;', r'op_setbacking(&\1,\2);'),
+]
+
+SQUIDS_C05 = [
+    Rule("c05.lower_bound", r'auto\s+xit\s*=\s*std::lower_bound\s*\(\s*x\.begin\(\)\s*,\s*x\.end\(\)\s*,\s*xi\s*\)\s*;', 'size_t xit=sq_lower_bound(x,nx,xi);'),
+    Rule("c05.end", r'\bxit\s*==\s*x\.end\(\)', 'xit==nx'),
+    Rule("c05.begin", r'\bxit\s*!=\s*x\.begin\(\)', 'xit!=0'),
+    Rule("c05.front", r'\bx\.front\(\)', 'x[0]'),
+    Rule("c05.back", r'\bx\.back\(\)', 'x[nx-1]'),
+    Rule("c05.distance", r'std::distance\s*\(\s*x\.begin\(\)\s*,\s*xit\s*\)', 'xit'),
+    Rule("c05.buf.assign", r'\bbuf\.state\s*=\s*(\w+)\s*\*\s*(state\[[^\]]+\]\.rho\[nrh\])\s*;', r'op_assign_mul(&buf->state,&\2,\1,0);'),
+    Rule("c05.buf.incr", r'\bbuf\.state\s*\+=\s*(\w+)\s*\*\s*(state\[[^\]]+\]\.rho\[nrh\])\s*;', r'op_assign_mul(&buf->state,&\2,\1,1);'),
+    Rule("c05.buf.evol", r'\bbuf\.op\s*=\s*op\.Evolve\s*\(\s*H0\s*\(\s*xi\s*,\s*nrh\s*\)\s*,\s*t\s*-\s*t_ini\s*\)\s*;',
+         r'{ struct SU_vector h0_; hook_H0(self,xi,nrh,&h0_); op_assign_evol(&buf->op,&h0_,op,t-t_ini,0); }'),
+    Rule("c05.buf.dot", r'return\s+buf\.state\s*\*\s*buf\.op\s*;', 'return op_dot(&buf->state,&buf->op);'),
+    Rule("c05.node.h0", r'\bSU_vector\s+h0\s*=\s*H0\s*\(\s*x\[i\]\s*,\s*nrh\s*\)\s*;', 'struct SU_vector h0; hook_H0(self,x[i],nrh,&h0);'),
+    Rule("c05.node.ret", r'return\s+(state\[i\]\.rho\[nrh\])\s*\*\s*op\.Evolve\s*\(\s*h0\s*,\s*t\s*-\s*t_ini\s*\)\s*;',
+         r'{ struct SU_vector ev_; op_assign_evol(&ev_,&h0,op,t-t_ini,0); return op_dot(&\1,&ev_); }'),
+    Rule("c05.interm", r'return\s+(\w+)\s*\*\s*(state\[xid\]\.rho\[nrh\])\s*\+\s*(\w+)\s*\*\s*(state\[xid\+1\]\.rho\[nrh\])\s*;',
+         r'{ LOG(K_ADDRR,0,0,\1,ret,&\2,&\4,0,\3); return; }'),
+]
+
 RULESETS = {
     "common": COMMON,
+    "squids_c05": SQUIDS_C05,
+    "squids_forms": SQUIDS_FORMS,
+    "squids_members": [members_rule("squids", SQUIDS_MEMBERS)],
     "alloc": ALLOC,
     "suv_members_only": [members_rule("suv", SUV_MEMBERS)],
     "cache": CACHE,
